@@ -22,8 +22,10 @@ def pick_kind(kind, spec_text):
     return kind
 
 
-def make_spec(kind, spec_text, vars_, pastify=False, unit=None, period=None, consts=(), subs=(), io=None, **kw):
+def make_spec(kind, spec_text, vars_, pastify=False, unit=None, period=None, consts=(), subs=(), io=None, f=None, **kw):
     kind = pick_kind(kind, spec_text)
+    if f is not None and unit is None and period is None:
+        period, unit = refsem.cfg(f)           # notation cases of vf/pool.py carry their sampling period and default unit
     s = KINDS[kind](**kw)
     for v in vars_:
         s.declare_var(v, 'float')
